@@ -951,6 +951,11 @@ func accessibleFrom(info *types.Info, node ast.Node, wantPkg string) error {
 			return true
 		}
 		obj := info.ObjectOf(ident)
+		if obj == nil {
+			// Not a reference to a declared object (for example, the
+			// symbolic variable of a type switch): nothing to check.
+			return true
+		}
 		if _, ok := obj.(*types.PkgName); ok {
 			// Local package names are fine, since we can just reimport them.
 			return true
